@@ -29,6 +29,8 @@ EmitStream ==
      /\ \A n \in ScaleTo :
           LET sc == Scale(stream, n) IN Emit("scaled", [base |-> stream, n |-> n, stream |-> sc, out |-> Outcomes(sc)])
 
+ASSUME Emit("init", InitStore)
+
 \* the abstract clause itself: properties TLC checks on every generated stream
 AbsSane ==
   \A p \in DOMAIN Policies :
